@@ -3,6 +3,7 @@ package core
 import (
 	"errors"
 	"fmt"
+	"sort"
 	"strings"
 
 	schema "github.com/jsightapi/jsight-schema-core"
@@ -247,10 +248,10 @@ func (*JApiCore) getPropertiesNames(m map[string]ischema.Node) string {
 		return ""
 	}
 
-	buf := strings.Builder{}
+	names := make([]string, 0, len(m))
 	for k := range m {
-		buf.WriteString(k)
-		buf.WriteString(", ")
+		names = append(names, k)
 	}
-	return strings.TrimSuffix(buf.String(), ", ")
+	sort.Strings(names) // map iteration order must not leak into the error message
+	return strings.Join(names, ", ")
 }
